@@ -304,6 +304,15 @@ class FacebookPhoto(FacebookParsedItem):
 
 
 def parse_facebook_url(url, allow_relative_urls=False):
+    # NOTE: truncated urls (e.g. "facebook.com/groups/") lack the path parts
+    # or query items their route announces
+    try:
+        return _parse_facebook_url(url, allow_relative_urls=allow_relative_urls)
+    except (IndexError, KeyError):
+        return None
+
+
+def _parse_facebook_url(url, allow_relative_urls=False):
 
     # Allowing relative urls scraped from facebook?
     if (
